@@ -154,6 +154,20 @@ def judge_scale_probe(cfg, r):
     return []
 
 
+def build(rng, opts):
+    """default cases; with a numeric horizon, one in three gets a constraint on the horizon that is TRUE only once the
+    placeholders are filled in (rockit drops it at transcription) in front of the scaled constraints"""
+    from .nlpprop import default_build
+    from .. import gen
+    c = default_build(rng, opts)
+    if "fixed" in c.get("T", {}) and rng.random() < 0.35:
+        T = Fr(c["T"]["fixed"])
+        con = {"grid": "point", "rels": [{"rel": "le", "lhs": ["g", "T"], "rhs": gen.C(T + rng.choice([1, 5]))}]}
+        c["constraints"].insert(rng.randrange(0, max(1, len(c["constraints"]))), con)
+        c["_true_after_substitution"] = True
+    return c
+
+
 class C14Prop(NlpProp):
     def run(self, tier="quick", seed=0, jobs=16):
         res = NlpProp.run(self, tier, seed, jobs)
@@ -188,10 +202,10 @@ class C14Prop(NlpProp):
         return res
 
 
-P = C14Prop("C14", OPTS, OPTS_T, judge_kinds=None, judge_obj=True, nontrivial=lambda c, m: has_scales(c),
+P = C14Prop("C14", OPTS, OPTS_T, build=build, judge_kinds=None, judge_obj=True, nontrivial=lambda c, m: has_scales(c),
             extra=(None, extra_scale), extra_judge=extra_judge,
             rule="random OCPs with scale= on states (scalar and element-wise), controls, algebraic variables, variables of "
-                 "every grid kind, set_der(scale=) and constraints, x {MS,SS,DC} x N,M: (1) every NLP row (divided by its "
+                 "every grid kind, set_der(scale=) and constraints (a third of the fixed-horizon cases with a horizon bound in front that is dropped as true at transcription), x {MS,SS,DC} x N,M: (1) every NLP row (divided by its "
                  "scale) and the objective against the model at physical decision points; every physical quantity = solver "
                  "variable x declared scale (Jacobian of the read-back); "
                  "(2) metamorphic on rockit: scaled vs unscaled OCP agree row by row up to a positive factor, same "
